@@ -38,6 +38,11 @@ def run(ctx):
                 viol.append({'signature': 'oracle:digest-changed', 'case': {'spec': c['spec'], 'rewrite': r['name'], 'field': c['field'], 'key': c['key']},
                              'observed': r['digest'], 'expected': c['digest'],
                              'what': f'C07: case {i}: the neutral rewrite {r["name"]} changes the digest of {c["field"]}({c["key"]!r})'})
+            elif (r['name'] in ('rebuild', 'left-nested', 'lazy-tail', 'rshift', 'insert-ram', 'insert-disk', 'insert-columns', 'insert-inherit-all')
+                  and r.get('ids_digest') != c['ids_digest']):
+                viol.append({'signature': 'oracle:ids-digest-changed', 'case': {'spec': c['spec'], 'rewrite': r['name']},
+                             'observed': r.get('ids_digest'), 'expected': c['ids_digest'],
+                             'what': f'C07: case {i}: the neutral rewrite {r["name"]} changes the digest of ids (which holds the static hash of the pipeline when it ends with a Filter)'})
             elif not r['inproc_equal']:
                 viol.append({'signature': 'oracle:inprocess-hash-changed', 'case': {'spec': c['spec'], 'rewrite': r['name']},
                              'what': f'C07: case {i}: the neutral rewrite {r["name"]} changes the in-process node hash'})
